@@ -5,10 +5,10 @@
 //! semantic edit of the Rust function changes the generated definition and that theorem stops
 //! checking.
 //!
-//! usage: `ktranslate pure_fns <repo> <out>` – strict: exit 1 when any function is outside the
-//! fragment; `ktranslate pure_fns:<ID> <repo> <out>` writes the same file but only exits 1 when a
-//! function of property `<ID>` is outside the fragment (so that a check is not alarmed by a
-//! function of another property).  A function outside the fragment gets *no* definition (a
+//! usage: `ktranslate pure_fns:<ID> <repo> <out>` writes the functions of property `<ID>` only
+//! (`Generated/PureFns<ID>.lean`; one file per property, so that a check is not alarmed by a
+//! function of another property) and exits 1 when one of them is outside the fragment;
+//! `ktranslate pure_fns <repo> <out>` writes all of them into one file (for inspection).  A function outside the fragment gets *no* definition (a
 //! marker comment instead), so its equality theorem stops checking as well.
 //!
 //! Supported fragment (anything else: error naming the function and the construct; never guess):
@@ -2007,9 +2007,12 @@ fn gen_fn(repo: &Path, spec: &Spec) -> R {
 }
 
 pub fn run(repo: &Path, table: &str) -> String {
+    // `pure_fns:<ID>`: only the functions of property <ID> (one generated file per property, so that a function of
+    // another property that leaves the fragment - or whose translation no longer compiles - cannot break this one)
     let only = table.strip_prefix("pure_fns:");
+    let specs: Vec<&Spec> = SPECS.iter().filter(|s| only.is_none() || only == Some(s.id)).collect();
     let mut files: Vec<&str> = Vec::new();
-    for s in SPECS {
+    for s in &specs {
         if !files.contains(&s.file) {
             files.push(s.file);
         }
@@ -2021,7 +2024,7 @@ pub fn run(repo: &Path, table: &str) -> String {
     out.push_str("Conditions are translated to decidable propositions (`a < b`, `∧`, `∨`, `¬`, `b = true`),\n");
     out.push_str("Boolean values to `Bool` terms (`decide (a < b)`, `&&`, `||`, `!`). Logging macros are skipped.\n\n");
     out.push_str("TRUSTED name maps (Rust expression ↦ Lean term; everything else is translated structurally):\n");
-    for s in SPECS {
+    for s in specs.iter().copied() {
         out.push_str(&format!("\n* `{}::{}` ({}, property {}) ↦ `KM.Gen.{}`\n", s.ty, s.method, s.file, s.id, s.lean));
         out.push_str(&format!("    signature (checked verbatim): `{}`\n", s.sig));
         out.push_str(&format!("    integers: {}\n", if s.num == Num::Nat { "Nat" } else { "Int" }));
@@ -2057,7 +2060,7 @@ pub fn run(repo: &Path, table: &str) -> String {
     out.push_str("-/\nset_option linter.unusedVariables false\nnamespace KM.Gen\n\n");
 
     let mut enums_done: Vec<&str> = Vec::new();
-    for s in SPECS {
+    for s in specs.iter().copied() {
         let mut text = String::new();
         let mut res: Result<(), String> = Ok(());
         for (en, file, params) in s.enums {
